@@ -1,6 +1,7 @@
 //! Deterministic simulation with fault injection for Elvis (see /verif/DESIGN.md).
 
 mod common;
+mod dd_decode;
 mod e1;
 mod e2;
 mod e2_arp;
